@@ -16,9 +16,9 @@ RULE = ('grammar-based schemas (<=6 definitions, reference depth <=3, same rule 
         'temporary rules/patterns, multi-option and multi-set constraints, $eq/$eq_type/$isin/$neq) x ALL names of '
         'length 0..4 over the schema literals + fresh component(s); a case = (schema, name); non-trivial = the '
         'reference or the library reports at least one match; distinct = hash(schema text, name)')
-BOUND = 'quick 1600 schemas, thorough 40000 schemas; names <= 4 components over <= 6 distinct components'
+BOUND = 'quick 1600 schemas, thorough 120000 schemas; names <= 4 components over <= 6 distinct components'
 
-N_SCHEMAS = {'quick': 1600, 'thorough': 40000}
+N_SCHEMAS = {'quick': 1600, 'thorough': 120000}
 
 
 def build(schema):
